@@ -340,3 +340,36 @@ def check(ctx):
     other = sorted(x for x in w if not (x[0].endswith("scanner::Scanner") or x[0].endswith("ScannerImpl")) and not x[0].startswith("log") and not x[0].startswith("core::fmt") and not x[0].startswith("std::fmt"))
     ctx.ob("C06.g", "Scanner::set_mode-writes-own-inner-only", not [x for x in other if x[0].startswith("internal") or x[0].startswith("find_matches")],
            "other local fields written: %s" % other, ss.loc())
+
+    # ---- C06.h the compiled mode keeps the configured transition table and name unchanged ---------
+    sm = F.fn(r"CompiledScannerMode::try_from_scanner_mode$")
+    ctx.analysed_fn(sm)
+    ex, paths = run_fn(sm, F, Model())
+    n = 0
+    for p in ret_paths(paths):
+        r = p.end[1]
+        if r[0] == "adt" and r[2] == "Ok" and r[3][0][0] == "adt":
+            n += 1
+            m = r[3][0]
+            names = ["name", "dfa", "transitions"]
+            tr = m[3][2] if len(m[3]) > 2 else None
+            nm = m[3][0] if m[3] else None
+            ctx.ob("C06.h", "compiled-mode-keeps-the-configured-transitions", tr == ("field", ("sym", "scanner_mode"), "transitions"),
+                   "CompiledScannerMode.transitions := %s (must be the ScannerMode's transition list, unmodified)" % (S.fstr(tr)[:140] if tr else None), sm.loc())
+            ctx.ob("C06.h", "compiled-mode-keeps-the-configured-name", nm == ("field", ("sym", "scanner_mode"), "name"), "name := %s" % (S.fstr(nm)[:80] if nm else None), sm.loc())
+            c = p.calls(r"CompiledDfa::try_from_patterns$")
+            ctx.ob("C06.h", "compiled-mode-automaton-from-own-patterns", len(c) == 1 and S.fstr(ex.deref_val(p, c[0][3][0])) == "scanner_mode.patterns", "dfa := try_from_patterns(%s)" % (S.fstr(c[0][3][0])[:60] if c else None), sm.loc())
+    ctx.floor("C06.h", "Ok paths of try_from_scanner_mode", n, 1)
+    # ScannerMode::new stores the given transitions in order (ids are transparent wrappers)
+    nw = F.fn(r"scanner_mode::ScannerMode::new$")
+    ctx.analysed_fn(nw)
+    calls = [M.call_name(t) for bb, t in nw.calls()]
+    bad = [c for c in calls if re.search(r"Iterator>::(rev|skip|take|filter|step_by|skip_while|take_while)|sort|dedup|reverse|retain", c) and "windows" not in c]
+    ctx.ob("C06.h", "ScannerMode::new-keeps-the-given-transitions", not bad, "reordering/filtering calls in ScannerMode::new: %s" % [M.short_name(c) for c in bad], nw.loc())
+    for c in F.closures_of(nw):
+        if c.argc == 2 and len(c.j["locals"]) > 2 and "(usize, usize)" in c.j["locals"][2]["ty"]:
+            ex2, ps = run_fn(c, F, Model(), inline=r"ids::(TerminalID|ScannerModeID)::new$")
+            for q in ret_paths(ps):
+                r = q.end[1]
+                ok = r[0] == "tuple" and S.fstr(r[1][0]).endswith(".0") and S.fstr(r[1][1]).endswith(".1")
+                ctx.ob("C06.h", "ScannerMode::new-maps-(token type, mode)-in-that-order", ok, "pair := %s" % S.fstr(r)[:80], c.loc())
